@@ -192,10 +192,97 @@ def dp_correspondence(ctx):
             ctx.broken[-1]["detail"] = {"failing": len(bad), "first_item": items[bad[0]][:800]}
 
 
+def prg_correspondence(ctx):
+    """The parent-function model of prune-regraft (Model/PrgMove.v) against the exact outcome distribution of the real
+    PruneRegraphSampler.sample_tree; nodes are identified by their smallest data index (the move never moves data)."""
+    import itertools
+    import math
+    from fractions import Fraction
+
+    from phyclone.mcmc.gibbs_mh import PruneRegraphSampler
+    from phyclone.tree import Tree
+
+    from ..enumrng import enumerate_outcomes
+    from ..kernels import make_tree_dist
+    from ..trees import all_specs, build_tree, make_data, rational_values, spec_nodes
+
+    def qlit(v):
+        fr = Fraction(v)
+        return "(%d#%d)%%Q" % (fr.numerator, fr.denominator)
+
+    npts = 4
+    vals = rational_values(ctx.rng, npts, 1, 3)
+    specs = [sp for sp in all_specs(range(npts), outliers=True) if 2 <= len(spec_nodes(sp)) <= 3]
+    ctx.rng.shuffle(specs)
+    items = []
+    for spec in specs[: (16 if ctx.quick else 80)]:
+        data = make_data(vals, outlier_prob=0.2 if spec[1] else 0.0)
+        td = make_tree_dist(ctx.rng.choice([0.3, 1.0, 2.5]))
+        nodes = spec_nodes(spec)
+        ids = sorted(min(n[0]) for n in nodes)
+        own = {min(n[0]): n[0] for n in nodes}
+
+        def parents(t):
+            out = {}
+            for nm in t.nodes:
+                me = min(d.idx for d in t.get_data(nm))
+                par = t.get_parent(nm)
+                out[me] = None if par == t.root_node_name else min(d.idx for d in t.get_data(par))
+            return tuple((i, out[i]) for i in ids)
+
+        def coq_state(a):
+            return "[" + "; ".join("(%d, %s)" % (p, "None" if h is None else "Some %d" % h) for p, h in a) + "]"
+
+        def fn(r):
+            return parents(PruneRegraphSampler(td, r).sample_tree(build_tree(spec, data)))
+
+        dist, npaths, _ = enumerate_outcomes(fn)
+        gt = []
+        for ps in itertools.product([None] + ids, repeat=len(ids)):
+            par = dict(zip(ids, ps))
+            ok = all(par[i] != i for i in ids)
+            for i in ids:  # acyclic
+                seen, j = set(), i
+                while ok and j is not None:
+                    if j in seen:
+                        ok = False
+                    seen.add(j)
+                    j = par[j]
+            if not ok:
+                continue
+            t = Tree(data[0].grid_size)
+            made = {}
+
+            def mk(i):
+                if i not in made:
+                    made[i] = t.create_root_node(children=[mk(k) for k in ids if par[k] == i], data=[data[p] for p in own[i]])
+                return made[i]
+
+            for i in ids:
+                if par[i] is None:
+                    mk(i)
+            for p in spec[1]:
+                t.add_data_point_to_outliers(data[p])
+            gt.append((tuple(zip(ids, ps)), math.exp(float(td.log_p_one(t)))))
+        g = "[" + "; ".join("(%s, %s)" % (coq_state(a), qlit(v)) for a, v in gt) + "]"
+        obs = "[" + "; ".join("(%s, %s)" % (coq_state(a), qlit(p)) for a, p in sorted(dist.items(), key=lambda kv: repr(kv[0]))) + "]"
+        items.append("chk_prg %s %s %s" % (g, coq_state(parents(build_tree(spec, data))), obs))
+        ctx.case(key=("prgcorr", spec), nontrivial=len(dist) > 1)
+    ok, bad, detail = coq.coq_eval_bool_cases(ctx, "prgcorr", "From PV Require Import Model.PrgCases.\nOpen Scope nat_scope.", items, shard=8)
+    ctx.extra["coq_prg_corr_cases"] = len(items)
+    if not ok:
+        ctx.broken_tie("C04 prune-regraft correspondence file did not evaluate", detail)
+    else:
+        ctx.obligation("corr_prg_model_eq_impl_%d_trees" % len(items), not bad)
+        if bad:
+            ctx.broken[-1]["detail"] = {"failing": len(bad), "first_item": items[bad[0]][:800]}
+
+
 def run(ctx):
     coq.check_property_file(ctx)
     sweep_structure(ctx)
     dp_correspondence(ctx)
+    prg_correspondence(ctx)
     ctx.rule = (
         "exact transition matrix (every random outcome enumerated) of DataPointSampler.sample_tree (outlier option off/on, library and run wiring), "
         "PruneRegraphSampler.sample_tree and ParticleGibbsSubtreeSampler.sample_tree from EVERY start tree over 2-3 (thorough: 4 for the "
